@@ -10,7 +10,7 @@ use reed_solomon_simd::engine::ShardsRefMut;
 use crate::codec::{self, Api, EngineKind};
 use crate::gen::{self, Class};
 use crate::hooks::Poison;
-use crate::util::{jobj, jstr, run_cases, Agg, CaseOut, Rng, RunCfg};
+use crate::util::{jobj, jstr, run_cases, run_indexed, Agg, CaseOut, Rng, RunCfg};
 
 pub fn run(cfg: &RunCfg, agg: &Mutex<Agg>) {
     run_cases(agg, cfg, "fft-ifft", crate::count(cfg, 20_000, 400_000), |cs, out| {
@@ -19,8 +19,9 @@ pub fn run(cfg: &RunCfg, agg: &Mutex<Agg>) {
     run_cases(agg, cfg, "fft-ifft-big", crate::count(cfg, 60, 1500), |cs, out| {
         transform_case(&mut Rng::new(cs), out, 16);
     });
-    run_cases(agg, cfg, "mul", crate::count(cfg, 20_000, 400_000), |cs, out| {
-        mul_case(&mut Rng::new(cs), out);
+    // the case index fixes the multiplier: 65536 consecutive cases cover every log_m
+    run_indexed(agg, cfg, "mul", crate::count(cfg, 20_000, 400_000), |i, out| {
+        mul_case(&mut Rng::new(crate::util::mix(cfg.seed, i)), (i % 65536) as u16, out);
     });
     run_cases(agg, cfg, "eval-poly", crate::count(cfg, 100, 2000), |cs, out| {
         eval_poly_case(&mut Rng::new(cs), out);
@@ -173,15 +174,8 @@ fn transform_case(rng: &mut Rng, out: &mut CaseOut, max_log: u32) {
     out.sample = Some(jobj(&[("params", jstr(&desc))]));
 }
 
-fn mul_case(rng: &mut Rng, out: &mut CaseOut) {
+fn mul_case(rng: &mut Rng, log_m: u16, out: &mut CaseOut) {
     let blocks = rng.below(9);
-    let log_m: u16 = match rng.below(8) {
-        0 => 0,
-        1 => 1,
-        2 => 65534,
-        3 => 65535,
-        _ => rng.next_u64() as u16,
-    };
     // canaries before and after the slice handed to mul (they catch stray
     // writes); in a third of the cases the slice ends exactly where the
     // allocation ends, so that a sanitizer sees any access beyond it
